@@ -143,6 +143,16 @@ fn inputs(n: usize, thorough: bool) -> Vec<Vec<f64>> {
     out
 }
 
+/// the numbers of a function of `pieces` segments for the many-segments sweep (ends i/2-3, background coefficients)
+fn many_nums(pieces: usize, per: usize) -> Vec<f64> {
+    let mut nums = Vec::with_capacity(pieces * per);
+    for i in 0..pieces {
+        nums.push(i as f64 * 0.5 - 3.0);
+        for k in 1..per { nums.push(BG[(i + k) % 4] * (1.0 + k as f64) + (i % 97) as f64); }
+    }
+    nums
+}
+
 fn main() {
     let args: Vec<String> = std::env::args().collect();
     if args.len() < 4 { eprintln!("usage: pwborsh C18 <quick|thorough> <partfile> | pwborsh C18 replay <file>"); std::process::exit(2); }
@@ -154,6 +164,11 @@ fn main() {
         let ty = d["type"].as_str().unwrap_or("");
         let nums: Vec<f64> = d["numbers"].as_array().map(|a| a.iter().map(|s| { let t = s.as_str().unwrap_or(""); f64::from_bits(u64::from_str_radix(t.rsplit("/0x").next().unwrap_or("0"), 16).unwrap_or(0)) }).collect()).unwrap_or_default();
         let Some(c) = cs.iter().find(|c| c.ty == ty) else { machinery("replay: unknown type") };
+        // a many-segments violation records the number of segments, not the numbers: rebuild them from the same pattern
+        let nums = match d["segments"].as_u64() {
+            Some(pieces) => many_nums(pieces as usize, c.n),
+            None => nums,
+        };
         let (r1, r2) = ((c.run)(&nums), (c.run)(&nums));
         if format!("{r1:?}") != format!("{r2:?}") { machinery("replay: two runs differ"); }
         match r1 {
@@ -189,12 +204,7 @@ fn main() {
                 if pieces < 1000 && (ci + pieces) % 3 != 0 {
                     continue;
                 }
-                let per = c.n;
-                let mut nums = Vec::with_capacity(pieces * per);
-                for i in 0..pieces {
-                    nums.push(i as f64 * 0.5 - 3.0);
-                    for k in 1..per { nums.push(BG[(i + k) % 4] * (1.0 + k as f64) + (i % 97) as f64); }
-                }
+                let nums = many_nums(pieces, c.n);
                 execs += 1;
                 states += 1;
                 nontrivial += 1;
